@@ -10,7 +10,7 @@ From Gen Require Import Tables.
 From L1 Require Import Model Own Shape Stuck.
 From L1h Require Import Sim.
 From L1b Require Import Measure Good Bound Explicit.
-From L1n Require Import Model LBound Wf Examples.
+From L1n Require Import Model LBound Wf FlattenWf Examples.
 
 Theorem L_bound_nested : forall (T : tables) (F : facts), own_conditions T -> imm_conditions T -> bound_conditions T ->
   forall nq mx ntop (P : prog), nwf nq ntop P ->
@@ -21,6 +21,12 @@ Theorem L_bound_no_infinite_nested_run : forall (T : tables) (F : facts), own_co
   forall nq mx ntop (P : prog), nwf nq ntop P ->
     ~ exists f : nat -> nat, forall n, is_Some (nrun T F ntop P (ninit nq mx P) (f <$> seq 0 n)).
 Proof. exact no_infinite_nrun. Qed.
+
+(* for recursive programs: every well-ordered program *)
+Theorem L_bound_nested_prog : forall (T : tables) (F : facts), own_conditions T -> imm_conditions T -> bound_conditions T ->
+  forall nq mx (scs : list (list nop)), wo nq scs ->
+  forall tr ns, nrun T F (length scs) (flatten scs) (ninit nq mx (flatten scs)) tr = Some ns -> length tr <= L1n_bound mx (length scs) (flatten scs).
+Proof. exact (fun T F H1 H2 H3 nq mx scs Hwo => L_bound_nested T F H1 H2 H3 nq mx (length scs) (flatten scs) (flatten_nwf nq scs Hwo)). Qed.
 
 (* on the current tables *)
 Lemma clbn_own : own_conditions gen_tables.
@@ -53,5 +59,6 @@ Qed.
 
 Print Assumptions L_bound_nested.
 Print Assumptions L_bound_no_infinite_nested_run.
+Print Assumptions L_bound_nested_prog.
 Print Assumptions L_bound_nested_now.
 Print Assumptions L_bound_nested_example.
